@@ -108,7 +108,7 @@ func (ex *exec) initPackage(pkg *ssa.Package) {
 			ex.globals[v] = &cell
 		}
 	}
-	if !ex.prog.interpreted(pkg.Pkg.Path()) || !strings.Contains(pkg.Pkg.Path(), ".") {
+	if !ex.prog.interpreted(pkg.Pkg.Path()) || (!strings.Contains(pkg.Pkg.Path(), ".") && pkg.Pkg.Path() != "context") {
 		return // standard library and un-modelled packages: globals stay zero
 	}
 	if init := pkg.Func("init"); init != nil && init.Blocks != nil {
@@ -173,6 +173,9 @@ func visitInstr(fr *frame, instr ssa.Instruction) continuation {
 		// no-op
 
 	case *ssa.UnOp:
+		if instr.Op == token.MUL {
+			ex.notePreempt(fr, instr) // a shared-memory load
+		}
 		fr.env[instr] = ex.unop(fr, instr, fr.get(instr.X))
 
 	case *ssa.BinOp:
